@@ -9,6 +9,9 @@ import (
 	msgpack "github.com/vmihailenco/msgpack/v5"
 )
 
+// upper bound for pre-sizing a decoded caveat slice from the announced length
+const maxCaveatPrealloc = 1024
+
 // CaveatSet is how a set of caveats is serailized/encoded.
 type CaveatSet struct {
 	Caveats []Caveat
@@ -133,7 +136,12 @@ func (c *CaveatSet) DecodeMsgpack(dec *msgpack.Decoder) error {
 	nCavs := aLen / 2
 
 	if c.Caveats == nil {
-		c.Caveats = make([]Caveat, 0, nCavs)
+		// the length comes off the wire: don't let it size the allocation
+		pre := nCavs
+		if pre > maxCaveatPrealloc {
+			pre = maxCaveatPrealloc
+		}
+		c.Caveats = make([]Caveat, 0, pre)
 	}
 
 	for i := 0; i < nCavs; i++ {
